@@ -57,6 +57,18 @@ def nextafter(x, d):
     return math.nextafter(x, d)
 
 
+# static obligations whose failure is a RESULT of analysing the code (not a comparison of its text with an expected spelling): refuted = violation even without a failing input
+_DECISIVE = ("modifies", "oblivious", "raises.", "returns", "writes_nothing", "result.shape", "x.shape", "rowwise", "reductions", "two_row_sums", "batch_of_N_rows_gives_N_values",
+             "classes", "declared", "registration", "dual.pairs", "tsukamoto.refuses_iff_not_monotonic", "lemma.", "split", "np.nditer", "masked item assignment", "exists",
+             "elementwise_meaning", "meaning[", "arity[", "arities_are", "exactly_the_", "strictly_decreasing", "table[", "and_or_table", "default_associativity_left",
+             "no_global_state_written", "no_custom_copy_hooks", "leaf_methods_store_nothing", "is_contextmanager", "decorators_modelled", "ieee.", "calls.modify")
+
+
+def _decisive(name):
+    tail = name.split("/", 2)[-1] if name.count("/") >= 2 else name.split("/")[-1]
+    return any(k in tail for k in _DECISIVE)
+
+
 class Run:
     def __init__(s, pid, title="", argv=None):
         argv = sys.argv[1:] if argv is None else argv
@@ -310,7 +322,7 @@ class Run:
                 # found that way IS a violation (it is a replayed input) - otherwise the obligation stays undecided
                 if o.meta.get("replay"):
                     status, rec = s.replay(o)
-                    if status == "reproduced" and s._is_known_class(rec, kf_open):
+                    if status == "reproduced" and (s._is_known_class(rec, kf_open) or s._is_not_demanded(rec)):
                         status = "not-reproduced"       # the fallback search ran into the failing region of a LISTED finding: nothing new about this obligation
                     if status == "reproduced":
                         match = [f for f in kf_open if s._names(f, o.name)]
@@ -329,6 +341,17 @@ class Run:
             match = [f for f in kf_open if s._names(f, o.name)]
             if match and s._finding_applies(match[0], o, status, rec):
                 kf_hit.append((o, match[0]))
+                continue
+            if status == "reproduced" and (s._is_known_class(rec, kf_open) or s._is_not_demanded(rec)):
+                # the directed search `reproduced` a case of a class that is a LISTED finding or that the statement does not demand (skipped by the stand-in of this
+                # property with the reason next to the list): that is not an input on which THIS obligation's clause fails
+                status, rec = "not-reproduced", {"tried": (rec or {}).get("cases", 1), "model": {}, "crashes": [], "note": f"search ended in the class {(rec or {}).get('class')!r}, which is listed / not demanded"}
+            if o.kind == "static" and status != "reproduced" and not _decisive(o.name):
+                # a RECOGNISER obligation (the source is compared with an expected way of writing it) that fails while the native search finds nothing wrong: the code is
+                # not written the way the recogniser expects - that is `not decided`, not a violation (a refactoring that keeps the behaviour must not raise an alarm).
+                # Obligations that state a RESULT of analysing the code (frame, raise sets, shapes, data-obliviousness, class sets, operator tables) stay violations.
+                o.detail = (o.detail or "") + " [source not recognised by this static obligation; native search found no failing input]"
+                undecided.append(o)
                 continue
             if status == "reproduced" or o.meta.get("sat_final", True):
                 violations.append((o, status, rec))
@@ -386,6 +409,13 @@ class Run:
             return True
         blob = json.dumps(rec, default=str, sort_keys=True)
         return all(str(x) in blob for x in w)
+
+    not_demanded = ()
+
+    def _is_not_demanded(s, rec):
+        import fnmatch
+        cls = str((rec or {}).get("class") or "")
+        return bool(cls) and any(cls == p_ or cls.startswith(p_ + ":") or ("*" in p_ and fnmatch.fnmatchcase(cls, p_)) for p_ in s.not_demanded)
 
     def _is_known_class(s, rec, kf_open):
         import fnmatch
